@@ -8,7 +8,7 @@ import random
 from harness import gen, tlc
 from harness.common import to_lit, from_lit
 from harness.encode import Unencodable
-from harness.props import rtdrv, c10, ruledrv
+from harness.props import rtdrv, c10, ruledrv, grammardrv as gd
 
 
 def literal_args(rparts):
@@ -59,6 +59,12 @@ def run(rep, tier, seed):
             part = {"rk": rng.choice(["map", "list", "mol"]), "key": None, "index": None, "cond": None, "label": None,
                     "value": ("leaf", {"datum": "value", "pre": "none", "fn": fn, "actuals": [arg], "akw": {}})}
             rparts = [part] if rng.random() < 0.7 else [part, rng.choice([("prim", "b"), ("prim", 0)])]
+        if rng.random() < 0.06:
+            # a part whose condition is ONE condition object combined with itself (c ^ c selects nothing, c & c what c does)
+            sub = ("leaf", gd.spec_leaf_recipe(rng, [("value", "none"), ("value", "length")]))
+            part = {"rk": rng.choice(["map", "list", "mol"]), "key": None, "index": None, "cond": None, "label": None,
+                    "value": (rng.choice(["xor", "xor", "and", "or"]), sub, sub)}
+            rparts = [part] if rng.random() < 0.7 else [rng.choice([("prim", "a"), ("prim", 0)]), part]
         probes = [doc] + rtdrv.PROBES[:5]
         lits = literal_args(rparts)
         if lits:
